@@ -267,17 +267,22 @@ def d3_fanout(chk, prog, eff):
             chk.decide(ok, "ordered-fanout", inst, inst, fi.loc(n), how, detail=how)
         else:
             chk.violate("ordered-fanout", inst, fi.loc(n), f"pool.{n.func.attr} is not a recognised order-preserving idiom")
-    # SerialPool.map must be an order-preserving map over the iterable, submit must call func(*args)
+    # SerialPool.map, interpreted: func applied to every item of the iterable once, results in item order (was a match on the shape of the return expression)
     sp = prog.fn("cnvlib.parallel.SerialPool.map")
-    rets = [n for n in own_nodes(sp.node) if isinstance(n, ast.Return)]
-    ok = len(rets) == 1 and isinstance(rets[0].value, ast.Call) and norm(rets[0].value.func) == "map" and \
-        [norm(a) for a in rets[0].value.args] == [sp.posparams[1], sp.posparams[2]]
-    if not ok and len(rets) == 1:
-        v = rets[0].value
-        ok = isinstance(v, (ast.ListComp, ast.GeneratorExp)) and len(v.generators) == 1 and norm(v.generators[0].iter) == sp.posparams[2] \
-            and not v.generators[0].ifs and isinstance(v.elt, ast.Call) and norm(v.elt.func) == sp.posparams[1]
-    chk.decide(ok, "ordered-fanout", "SerialPool.map == map(func, iterable)", "cnvlib.parallel.SerialPool.map", sp.loc(),
-               "the serial pool must apply func to every item in order")
+    from ..abstools import Interp
+    from ..absval import Undecided, Raised
+    applied = []
+
+    def worker(x):
+        applied.append(x)
+        return ("result of", x)
+    try:
+        res = list(Interp(prog).iterate(Interp(prog).call_function(sp.mod, sp.node, [None, worker, ["a", "b", "c", "a"]], {}, qn=sp.qn)))
+        ok = res == [("result of", x) for x in ("a", "b", "c", "a")] and applied == ["a", "b", "c", "a"]
+    except (Undecided, Raised) as e:
+        raise AnalysisError(f"C10-D3: SerialPool.map cannot be interpreted: {e}")
+    chk.decide(ok, "ordered-fanout", "SerialPool.map(func, items): func applied once per item, results in item order", "cnvlib.parallel.SerialPool.map", sp.loc(),
+               f"the serial pool must apply func to every item in order; got {res} (applied to {applied})")
     pp = prog.fn("cnvlib.parallel.pick_pool")
     yields = [n for n in own_nodes(pp.node) if isinstance(n, ast.Yield)]
     kinds = sorted({norm(y.value) for y in yields})
